@@ -110,7 +110,25 @@ func (a *An) c14Sender() {
 				pi = pi[:strings.Index(pi, ", ")]
 				di := strings.TrimPrefix(wf[1].Term, "fragmentData($data, ")
 				di = di[:strings.Index(di, ", ")]
-				R.Check(pi == di && a.C.Term(ia.Index) == pi, rule, "fragment|piece-index", "prefix index, data index and slot index are the same loop variable", a.C.InstrPos(st), "prefix "+pi+", data "+di+", slot "+a.C.Term(ia.Index))
+				// compared as values (the same SSA value), not as rendered terms
+				var pv, dv ssa.Value
+				for _, b2 := range fn.Blocks {
+					for _, in2 := range b2.Instrs {
+						if c2, isC := in2.(*ssa.Call); isC {
+							switch a.F.callName(c2) {
+							case "otrVersion.fragmentPrefix":
+								if len(c2.Call.Args) > 0 {
+									pv = c2.Call.Args[0]
+								}
+							case "fragmentData":
+								if len(c2.Call.Args) > 1 {
+									dv = c2.Call.Args[1]
+								}
+							}
+						}
+					}
+				}
+				R.Check(pv != nil && pv == dv && ia.Index == pv, rule, "fragment|piece-index", "prefix index, data index and slot index are the same loop variable", a.C.InstrPos(st), "prefix "+pi+", data "+di+", slot "+a.C.Term(ia.Index))
 			}
 		}
 	}
@@ -242,10 +260,10 @@ func (a *An) c14ReceiveOrder() {
 		return
 	}
 	for _, c := range []struct {
-		name                                 string
-		ignore, ok1, ok2, inv, first, next   bool
-		want                                 string
-		wantErr                              bool
+		name                               string
+		ignore, ok1, ok2, inv, first, next bool
+		want                               string
+		wantErr                            bool
 	}{
 		{"foreign-instance", true, true, true, false, true, false, "$beforeCtx", false},
 		{"foreign-instance-unparsable", true, true, false, false, false, false, "$beforeCtx", false},
